@@ -323,7 +323,7 @@ def add_extras(files: T.Dict[str, str], setup_args: T.Sequence[str], seed: int,
     # ---- pkg-config files ----------------------------------------------------------------------------
     if feat('pkgconfig', 0.7):
         post.append("x_pkg = import('pkgconfig')")
-        post.append(f"x_pkg.generate(x_lib2, name: 'xlib2', description: 'x lib two', version: '1.2.3', requires: {qlst(_perm(rng, ['zlib', 'xreq >= 1.0']))}, "
+        post.append(f"x_pkg.generate(x_lib2, name: 'xlib2', description: 'x lib two', version: '1.2.3', requires: {qlst(_perm(rng, ['zlib', 'xreq >= 1.0', 'xreq < 9.5', 'xreq != 3.1']))}, requires_private: {qlst(_perm(rng, ['xpriv >= 2', 'xpriv < 77']))}, "
                     f"libraries: ['-lm', x_lib1], libraries_private: ['-ldl', '-lrt'], subdirs: {qlst(_perm(rng, ['xa', 'xb', '.']))}, extra_cflags: ['-DXPC_B', '-DXPC_A'], "
                     f"variables: {dct({k: q(k + '_val') for k in _perm(rng, ['xv_b', 'xv_a', 'xv_m'])})}, uninstalled_variables: {dct({k: q('u') for k in _perm(rng, ['xu_b', 'xu_a'])})}, "
                     "filebase: 'xlib2-1', url: 'http://x.invalid')")
